@@ -90,8 +90,8 @@ BindItems(p, pieces) ==
       rs == [i \in DOMAIN pieces |-> One(pieces[i])]
   IN IF \E i \in DOMAIN rs : ~rs[i].ok THEN Fail
      ELSE LET arr == Arr([i \in DOMAIN rs |-> rs[i].val]) IN
-          IF /\ CountOK(p, Len(arr.v))
-             /\ (Get(p, "uniqueItems", FALSE) => Distinct(arr.v))
+          IF /\ CountOK(p, Len(Val(arr)))
+             /\ (Get(p, "uniqueItems", FALSE) => Distinct(Val(arr)))
           THEN Ok(arr) ELSE Fail
 
 (***************************************************************************)
@@ -128,9 +128,9 @@ BindOK(p, raw) == Bind(p, raw).ok
 (***************************************************************************)
 LexOfNum(n) == CHOOSE x \in DOMAIN NumLex : NumLex[x] = n /\ (\A y \in DOMAIN NumLex : NumLex[y] = n => Len(x) <= Len(y))
 HasLex(n)   == \E x \in DOMAIN NumLex : NumLex[x] = n
-LexOf(v) == CASE v.t = "num"  -> LexOfNum(v.v)
-              [] v.t = "bool" -> IF v.v THEN "true" ELSE "false"
-              [] OTHER        -> v.v
+LexOf(v) == CASE Tag(v) = "num"  -> LexOfNum(Val(v))
+              [] Tag(v) = "bool" -> IF Val(v) THEN "true" ELSE "false"
+              [] OTHER        -> Val(v)
 
 RECURSIVE JoinToks(_, _)
 JoinToks(cf, pieces) ==
